@@ -193,6 +193,7 @@ func c15Archive(c *vrep.Ctx) {
 		var buf bytes.Buffer
 		msg := ""
 		nq := 0
+		var outcomes []string
 		func() {
 			defer func() {
 				if x := recover(); x != nil {
@@ -255,6 +256,7 @@ func c15Archive(c *vrep.Ctx) {
 					msg = fmt.Sprintf("query %d: panic/deadlock archive=%q%q reference=%q%q", qi, p, d, p2, d2)
 					return
 				}
+				outcomes = append(outcomes, fmtMatches(a)+" / "+na.Name)
 				if fmtMatches(a) != fmtMatches(b) {
 					msg = fmt.Sprintf("query %d: MultipleMatch differs: archive-loaded [%s], directly built [%s]", qi, fmtMatches(a), fmtMatches(b))
 					return
@@ -265,14 +267,21 @@ func c15Archive(c *vrep.Ctx) {
 				}
 			}
 		}()
-		r.Note = map[string]interface{}{"set": strings.Join(set, "+"), "msg": msg, "nq": nq}
+		r.Note = map[string]interface{}{"set": strings.Join(set, "+"), "msg": msg, "nq": nq, "outcomes": outcomes}
 	}
 	c.Run(c.Explorer(0), body, func(r *vx.Run) {
 		set := r.Note["set"].(string)
 		for i := 0; i < r.Note["nq"].(int); i++ {
 			c.Nontrivial(fmt.Sprintf("%s|q%d", set, i))
 		}
-		c.Sample(map[string]interface{}{"files": set, "queries": r.Note["nq"]})
+		nonEmpty := 0
+		for _, o := range r.Note["outcomes"].([]string) {
+			c.Outcome(o)
+			if !strings.HasPrefix(o, " / ") {
+				nonEmpty++
+			}
+		}
+		c.Sample(map[string]interface{}{"files": set, "queries": r.Note["nq"], "queries_with_a_MultipleMatch_result": nonEmpty})
 		if m := r.Note["msg"].(string); m != "" {
 			c.Violate("c15:"+set+":"+strings.SplitN(m, ":", 2)[0], set+": "+m, r, m)
 		} else {
